@@ -121,6 +121,9 @@ def files_scope(res, pid, rng, tier):
             got = read_tree(outd)
             res.evaluations += len(files)
             res.nt(("tree", r, len(files)))
+            for k_, v_ in files.items():
+                res.nt(("file", k_, hashlib.sha1(v_).hexdigest()[:8]))
+            res.sample({"features": cfg.describe(), "input_files": sorted(files), "output_files": sorted(got)}, limit=3)
             extra = sorted(set(got) - set(want) - {os.path.join("pre-existing", "keep.txt")})
             missing = sorted(set(want) - set(got))
             if extra or missing:
